@@ -96,6 +96,9 @@ def expr_term(e: ast.AST, f: FuncInfo, env: Dict[str, Term],
     if isinstance(e, ast.Compare) and len(e.ops) == 1:
         return ("cmp", type(e.ops[0]).__name__, expr_term(e.left, f, env, aliases),
                 expr_term(e.comparators[0], f, env, aliases))
+    if isinstance(e, ast.Compare):
+        return ("cmpchain", tuple(type(o).__name__ for o in e.ops),
+                tuple(expr_term(x, f, env, aliases) for x in [e.left] + list(e.comparators)))
     if isinstance(e, ast.BoolOp):
         return ("bool", type(e.op).__name__,
                 tuple(expr_term(v, f, env, aliases) for v in e.values))
